@@ -9,7 +9,7 @@ TRUSTED_BASE = [
     "compression: a parameter (any comp/decomp with decomp c (comp c b) = b) in the theorems; in the differential the real codecs' behaviour is shipped with each case as (plain, compressed) pairs; gzip/snappy/lz4/zstd themselves are oracles",
     "protocol writers' WriteAt back-patching of placeholders is modelled by the final field values; sizeOfUnsignedVarInt's (bits.Len64(x|1)+6)/7 is modelled as the shift-loop count (both checked byte-exactly on every run, not proved equal)",
     "Go stdlib hash/crc32 is modelled by the bitwise reflected CRC of coq/Lib/Crc.v (compared on every case, not verified); time.Time by int64 nanoseconds (the zero time.Time, replaced by time.Now() in Conn, is outside the model)",
-    "coq/Model/Pages.v: protocol/buffer.go's pages, buffers and refs as an atomic-step transition system (each refc update / pool Get/Put one step; sync.Pool may forget pages); the harness translates what the real pageBuffer did (through /repo/protocol/verif_export_c05.go) into these steps and compares refcounts and the bytes read through every ref; real interleavings finer than one step (the window between the atomic decrement to 0 and pagePool.Put) are exercised only by the concurrent stress op; pageBuffer.ReadFrom's loop is modelled (pb_read_from) and proved to append exactly the reader's bytes for every fill of the tail page, but there is no hook to drive the real ReadFrom directly: it is tied to the code only through the page-boundary reader cases (format 0/1 decoding appends key, value and inner messages to a partly filled page); pageBuffer.Write's splitting is tied by the pg op",
+    "coq/Model/Pages.v: protocol/buffer.go's pages, buffers and refs as an atomic-step transition system (each refc update / pool Get/Put one step; sync.Pool may forget pages); the harness translates what the real pageBuffer did (through /repo/protocol/verif_export_c05.go) into these steps and compares refcounts and the bytes read through every ref; real interleavings finer than one step (the window between the atomic decrement to 0 and pagePool.Put) are exercised only by the concurrent stress op; pageBuffer.Write's splitting (pg) and pageBuffer.ReadFrom's refill loop (pgr: the real ReadFrom through the hook, readers with arbitrary chunkings, zero-length reads, (n>0, err) returns and failing readers, against the extracted pb_read_from with a digest of page ids, offsets, lengths, content hash and refcounts after every operation) are both driven directly",
     "ocaml/kvio.ml.in + ocaml/c05_driver.ml (hex interchange) and harness/kvfmt",
 ]
 ASSUMPTIONS = [
@@ -120,6 +120,8 @@ def reader_predicate(c):
 
 def pages_predicate(c):
     g = c["go"]
+    if g.startswith("SHORTREAD"):
+        return (None, "pageBuffer.ReadFrom returned before the reader's end (bytes lost) or with the wrong error class: " + g[:80])
     if g.startswith("UNSTABLE"):
         return (None, "bytes seen through a live pageRef changed while it was open: " + g[:60])
     if g.startswith("corrupt"):
@@ -130,7 +132,7 @@ def pages_predicate(c):
 
 
 def predicate(c):
-    if c["op"] in ("pg", "pgc"):
+    if c["op"] in ("pg", "pgc", "pgr"):
         return pages_predicate(c)
     return reader_predicate(c) if c["op"] == "rd" else writer_predicate(c)
 
@@ -158,7 +160,7 @@ def run_cases(ctx, n, big):
     gobin = L.go_build("c05")
     model = L.ocaml_build("c05")
     rc, out, err, dt = L.sh([gobin, "-seed", str(ctx.seed), "-n", str(n), "-big", str(big),
-                             "-pg", str(ctx.scale(40, 150)), "-bigrd", str(ctx.scale(1, 2))], timeout=3000)
+                             "-pg", str(ctx.scale(40, 150)), "-bigrd", str(ctx.scale(1, 2)), "-pgr", str(ctx.scale(30, 150))], timeout=3000)
     if rc != 0:
         raise L.Fail("correspondence", "harness cmd/c05 crashed", (out[-1500:] + err[-2500:]))
     cases = L.parse_cases(out)
@@ -198,7 +200,7 @@ def correspondence(ctx):
         m = str(c.get("model"))
         if m.startswith("NOORACLE"):
             what = "model's pre-compression bytes differ from what the code handed to the codec (but the produced set decodes to the right records)"
-        elif c["op"] in ("pg", "pgc"):
+        elif c["op"] in ("pg", "pgc", "pgr"):
             what = "page model and pageBuffer differ (refcounts or bytes read through a ref) although every ref stayed stable"
         elif c["op"] == "rd":
             what = "reader model and code differ on a case where the code's own output satisfies the property"
@@ -217,7 +219,8 @@ def correspondence(ctx):
                      "several wrappers per response with a small one first) and v2 batches (every codec) whose key+value bytes total 65536+{-17,-16,-15,-1,0,1,15,16,17}, 70000, 100000, 200000, "
                      "compared with the model, with each other and with the reference; pg: operation sequences on the real pageBuffer/pageRef (writes across 64 KiB pages, refs, "
                      "buffer unref before ref close, pooled pages reused while older refs are open, double Close) translated to the steps of Model/Pages.v, refcounts and ref contents "
-                     "compared after the sequence and ref stability checked after every operation; pgc: concurrent goroutines recycling pages with content checks; a case is non-trivial when it has any feature tag; distinct by hash of op+args",
+                     "compared after the sequence and ref stability checked after every operation; pgr: the same with pageBuffer.ReadFrom interleaved (readers delivering in arbitrary chunkings, chunk ends at / one before / one after a page boundary, "
+                     "zero-length reads, (n>0, EOF/err) returns, failing readers, appends to partly filled tail pages) and the full page state compared with the model after EVERY operation; pgc: concurrent goroutines recycling pages with content checks; a case is non-trivial when it has any feature tag; distinct by hash of op+args",
                 samples=[c["line"][:240] + " | " + c["go"][:120] for c in cases[:2] + cases[len(cases)//2:len(cases)//2+2] + cases[-2:]],
                 failures=failures,
                 notes=["Conn path (messageSetReader) verifies no checksum and hands control-batch records to the consumer; the property asks both only of Client.Fetch, so these are not counted as violations",
